@@ -122,8 +122,8 @@ impl Property for C34Prop {
     }
     fn budget(&self, tier: Tier) -> Budget {
         match tier {
-            Tier::Quick => Budget { runs: 300_000, wall_cap_s: 35 },
-            Tier::Thorough => Budget { runs: 3_000_000, wall_cap_s: 330 },
+            Tier::Quick => Budget { runs: 120_000, wall_cap_s: 35 },
+            Tier::Thorough => Budget { runs: 1_200_000, wall_cap_s: 330 },
         }
     }
     fn modes(&self) -> u32 {
